@@ -417,16 +417,27 @@ func (o Outcome) demote() Outcome {
 
 // refQuote evaluates an ICMP error quoting a datagram.
 func refQuote(f *Flow, ip ipView, body []byte, at int64, eqType uint8) Outcome {
+	undecided := false
+	if len(body) >= 1 {
+		want := byte(4)
+		if f.V.V6 {
+			want = 6
+		}
+		if body[0]>>4 != want {
+			// the version nibble of the quoted header is not an identifying field: a quote that is otherwise the
+			// probe's own is not decided by the property (the tool's decoder may or may not look at the nibble)
+			fixed := append([]byte(nil), body...)
+			fixed[0] = fixed[0]&0x0f | want<<4
+			body = fixed
+			undecided = true
+		}
+	}
 	q, ok := parseIP(body, false)
 	if !ok || q.v6 != f.V.V6 {
 		return rej("no parsable quoted header")
 	}
-	if f.V.V6 && len(body) >= 1 && body[0]>>4 != 6 {
-		return rej("quoted header not ipv6")
-	}
 	l4 := q.payload
 	dest := ip.src == f.Target
-	undecided := false
 	switch f.V.Proto {
 	case "icmp":
 		wantProto := uint8(1)
